@@ -92,10 +92,11 @@ type packOpt struct {
 	Ignore, Deref, AllowOut bool
 	UID                     int
 	Reuse                   bool // the same *Packer packed another tree first
+	PreFails                bool // ... and that earlier Pack failed half-way
 }
 
 func (o packOpt) String() string {
-	return fmt.Sprintf("ignore=%v deref=%v allow_out=%v uid=%d reuse=%v", o.Ignore, o.Deref, o.AllowOut, o.UID, o.Reuse)
+	return fmt.Sprintf("ignore=%v deref=%v allow_out=%v uid=%d reuse=%v earlier-pack-failed=%v", o.Ignore, o.Deref, o.AllowOut, o.UID, o.Reuse, o.PreFails)
 }
 
 // expected omissions under the built-in rules / a rule file for C02
@@ -474,7 +475,7 @@ func RunPackTrees(id, tier string) int {
 			opt := opt
 			args := make([]PackArg, len(trees))
 			pool(opt.UID).Map("pack", len(trees), func(i int) any {
-				args[i] = PackArg{Nodes: trees[i], Ignore: opt.Ignore, Deref: opt.Deref, AllowOut: opt.AllowOut, Roundtrip: id != "C20", UID: opt.UID, Reuse: opt.Reuse}
+				args[i] = PackArg{Nodes: trees[i], Ignore: opt.Ignore, Deref: opt.Deref, AllowOut: opt.AllowOut, Roundtrip: id != "C20", UID: opt.UID, Reuse: opt.Reuse, PreFails: opt.PreFails}
 				return args[i]
 			}, func(i int, r core.Result) {
 				var out PackOut
@@ -521,7 +522,7 @@ func RunPackTrees(id, tier string) int {
 		}
 	}
 	rootOpts := allOpts[:4]
-	reuseOpts := []packOpt{{Reuse: true}, {Deref: true, Reuse: true}, {Ignore: true, Deref: true, Reuse: true}}
+	reuseOpts := []packOpt{{Reuse: true}, {Deref: true, Reuse: true}, {Ignore: true, Deref: true, Reuse: true}, {Reuse: true, PreFails: true}, {Deref: true, Reuse: true, PreFails: true}}
 
 	if id == "C02" || id == "C20" {
 		alpha := c02Alphabet()
